@@ -67,6 +67,25 @@ class C02(Prop):
                     yield {"k": "rot", "kind": kind, "g": g, "ins": allp, "layout": LAY[(j + len(kind)) % 4]}
                 if n == 2:
                     yield {"k": "rot", "kind": "list", "g": g[:1] + g[-1:], "qs": [1 + j % 2], "ins": allp, "layout": LAY[j % 4]}
+        # (a4) the generator is an element of the list that is being rotated (lst[j]: a view of the list's own arrays),
+        # or the very object being rotated
+        for n in (1, 2, 3):
+            allh = enum.herm(n, identity=False)
+            for t in range(12):
+                ins = [allh[(5 * t + 3 * j) % len(allh)] if j % 2 == 0 else enum.paulis(n)[(11 * t + 7 * j) % (4 ** n * 4)] for j in range(5)]
+                yield {"k": "rot", "kind": "selfgen", "j": 2 * (t % 3), "g": ins[2 * (t % 3)], "ins": ins}
+            for g in allh[::3]:
+                yield {"k": "rot", "kind": "selfpauli", "g": g, "ins": [g]}
+        # (a5) element types of the user's arrays (bits as uint8 / int8 / uint64 / float64 ..., phases likewise); a refusal is
+        # accepted, a returned result must be the rotation
+        DTS = (("uint8", "int64"), ("int8", "int32"), ("uint64", "uint8"), ("float64", "int64"), ("uint8", "uint8"), ("int32", "float64"))
+        for n in (1, 2):
+            allp = enum.paulis(n)
+            for j, g in enumerate(enum.herm(n)):
+                yield {"k": "rot", "kind": "list", "g": g, "ins": allp, "dt": list(DTS[j % 6]), "pkg": "py"}
+                if n == 2 and j % 4 == 0:
+                    yield {"k": "rot", "kind": "list", "g": g[:1] + g[-1:], "qs": [1 + j % 2], "ins": allp, "dt": list(DTS[(j + 1) % 6]), "pkg": "py"}
+                    yield {"k": "rot", "kind": "list", "g": g, "ins": allp, "dt": list(DTS[(j + 2) % 6]), "gdt": True, "pkg": "py"}
         # (a3) lists of length 0 and 1
         for n in (1, 2, 3):
             for j, g in enumerate(enum.herm(n)[::5]):
@@ -152,7 +171,8 @@ class C02(Prop):
     def execute(self, scn, be):
         k = scn["k"]
         if k == "rot":
-            return [self._rot(scn, be)]
+            r = self._rot(scn, be)
+            return [r] if r is not None else []
         if k == "rotmap":
             return [self._rotmap(scn, be)]
         if k == "rotseq":
@@ -172,6 +192,30 @@ class C02(Prop):
             lay = scn.get("layout")
             if lay:
                 rec["layout"] = lay
+            if kind == "selfgen":
+                L = be.plist(ins, n)
+                L.rotate_by(L[scn["j"]])
+                rec["kind"] = "list"
+                rec["outs"] = be.p_list(L)
+                return rec
+            if kind == "selfpauli":
+                P = be.pauli(g)
+                P.rotate_by(P)
+                rec["kind"] = "pauli"
+                rec["outs"] = [be.p_pauli(P)]
+                return rec
+            if kind == "list" and scn.get("dt"):
+                rec["dt"] = scn["dt"]
+                try:
+                    L = be.retype(be.plist(ins, n), *scn["dt"])
+                    if scn.get("gdt"):
+                        import numpy
+                        G = be.paulialg.Pauli(G.g.astype(getattr(numpy, scn["dt"][0])), G.p)
+                    L.rotate_by(G, mk) if qs else L.rotate_by(G)
+                    rec["outs"] = be.p_list(L)
+                except Exception:
+                    return None
+                return rec
             if kind == "list":
                 L = be.plist(ins, n)
                 if lay:
